@@ -24,3 +24,21 @@ func VerifNewClient(cfg *Config, id connection.ConnectionId) *Client {
 
 func VerifServerHandle(s *Server, msg protocol.Message) error { return s.handleMessage(msg) }
 func VerifClientHandle(c *Client, msg protocol.Message) error { return c.messageHandler(msg) }
+
+// ---- handshake outcome contract (used when connection set-up is under test) ----
+
+// VerifOutcomeVersion / VerifOutcomeData: what the handshake negotiates (prepared by the harness).
+var (
+	VerifOutcomeVersion uint16
+	VerifOutcomeData    protocol.VersionData
+)
+
+// VerifStubClientStart / VerifStubServerStart are the contract of Start() for connection
+// set-up: the handshake runs to completion and reports the prepared outcome through the
+// configured FinishedFunc (the exchange itself is C18/C19's subject).
+func VerifStubClientStart(c *Client) {
+	_ = c.config.FinishedFunc(c.callbackContext, VerifOutcomeVersion, VerifOutcomeData)
+}
+func VerifStubServerStart(s *Server) {
+	_ = s.config.FinishedFunc(s.callbackContext, VerifOutcomeVersion, VerifOutcomeData)
+}
